@@ -113,7 +113,7 @@ fn ts(case: &Value, m: &mut Map<String, Value>) {
             signed_headers: vec!["host".to_string()],
             timestamp_str: st,
         };
-        creq.get_authenticator_from_auth_parameters(ap).map(|a| (a.request_timestamp(), a.get_string_to_sign()))
+        creq.get_authenticator_from_auth_parameters(ap).map(|a| (a.request_timestamp().with_timezone(&chrono::Utc), a.get_string_to_sign()))
     });
     match r {
         Err(p) => res_other(m, "panic", &p),
